@@ -260,13 +260,15 @@ type QualityFeature interface {
 // of good sequence. http://www.phrap.org/phredphrap/phred.html
 func Trim(q QualityFeature, limit float64) (start, end int) {
 	var sum, max float64
+	start, end = q.Start(), q.Start()
+	runStart := q.Start()
 	for i := q.Start(); i < q.End(); i++ {
 		sum += limit - q.EAt(i)
 		if sum < 0 {
-			sum, start = 0, i+1
+			sum, runStart = 0, i+1
 		}
 		if sum >= max {
-			max, end = sum, i+1
+			max, start, end = sum, runStart, i+1
 		}
 	}
 	return
